@@ -38,6 +38,7 @@ structure Tables where
   exeVarTypeOptional : Bool
   opFallbackAnyName : Bool
   nullVarUsesDefault : Bool
+  argsInPlace : Bool
   eventVarsEmpty : Bool
   symbolBaseEnum : Bool
   inputDefaultsRaw : Bool
